@@ -30,10 +30,13 @@ def compare_case(spec, py_status, py_obs, lean_ans, ceil_guard=True):
             return [], 0
         if lean_ans["err"] == "fixed-instances" and py_status == "ok" and fixed_at_boundary(spec, py_obs):
             return [], 1      # the user-fixed count equals a need that is an integer up to float rounding: discontinuity
-        if py_status == "err" and {py_obs, lean_ans["err"]} == {"shape", "neg-storage"}:
+        refusals = {"shape", "neg-storage", "fixed-instances", "capacity"}
+        if py_status == "err" and py_obs in refusals and lean_ans["err"] in refusals and \
+                len(spec.get("storages", {})) + len(spec.get("servers", {})) >= 2:
             # both refuse the model, for two reasons that are both present (a positional comparison over different
-            # windows, D15, and a negative cumulative need): which one is met first depends on the order in which
-            # servers and storages are visited (a set in the real code) — not a disagreement about any value
+            # windows, D15; a negative cumulative need; a fixed count or a capacity below the need of another object): which
+            # one is met first depends on the order in which servers and storages are visited (a set in the real code) —
+            # not a disagreement about any value
             return [], 1
         return [f"model raises {lean_ans['err']} but real code gives {py_status}:{py_obs if py_status=='err' else 'values'}"], 0
     lean_obs = {(o["o"], o["a"], o["k"]): leanio.lean_val(o["v"]) for o in lean_ans["ok"]}
